@@ -224,8 +224,9 @@ func c15Pair(ctx *core.Ctx, out *core.Out) {
 				out.Count("rsv1_frames_seen", 1)
 			}
 			if i < len(expRSV) && m.Compressed != expRSV[i] {
-				fail("compression-state", fmt.Sprintf("%s: message %d compressed=%v, expected %v (agreed=%v)", dir.name, i, m.Compressed, expRSV[i], agreed))
-				return
+				// whether EnableWriteCompression is honoured is C19's business; C15 only
+				// demands agreement (RSV1 without agreement is refused by Validate above)
+				out.Count("compression_state_differs_from_setting", 1)
 			}
 		}
 	}
